@@ -71,13 +71,13 @@ var kinds = []string{"registerCandidate", "unRegisterCandidate", "quitNode", "au
 	"withdrawOng", "withdrawFee", "addInitPos", "reduceInitPos", "setPeerCost", "changeMaxAuthorization", "setFeePercentage",
 	"blackNode", "whiteNode", "updateGlobalParam", "updateGlobalParam2", "setGasAddress", "income", "commitDpos", "transferPenalty"}
 
-var profMixed = &profile{name: "mixed", arbitrary: 30, prelude: 35, w: map[string]int{"registerCandidate": 7, "unRegisterCandidate": 1, "quitNode": 5,
+var profMixed = &profile{name: "mixed", arbitrary: 30, prelude: 50, w: map[string]int{"registerCandidate": 7, "unRegisterCandidate": 1, "quitNode": 5,
 	"authorizeForPeer": 13, "unAuthorizeForPeer": 8, "withdraw": 10, "withdrawOng": 2, "withdrawFee": 5, "addInitPos": 3, "reduceInitPos": 3,
 	"setPeerCost": 4, "changeMaxAuthorization": 6, "setFeePercentage": 4, "blackNode": 3, "whiteNode": 2, "updateGlobalParam": 3,
 	"updateGlobalParam2": 3, "setGasAddress": 2, "income": 8, "commitDpos": 17, "transferPenalty": 1}}
 
 // fee-split focus: authorizers, costs, split parameters, income, epochs
-var profSplit = &profile{name: "split", arbitrary: 25, prelude: 35, w: map[string]int{"registerCandidate": 6, "unRegisterCandidate": 1, "quitNode": 2,
+var profSplit = &profile{name: "split", arbitrary: 25, prelude: 40, w: map[string]int{"registerCandidate": 6, "unRegisterCandidate": 1, "quitNode": 2,
 	"authorizeForPeer": 16, "unAuthorizeForPeer": 11, "withdraw": 4, "withdrawOng": 1, "withdrawFee": 7, "addInitPos": 3, "reduceInitPos": 2,
 	"setPeerCost": 6, "changeMaxAuthorization": 7, "setFeePercentage": 6, "blackNode": 2, "whiteNode": 1, "updateGlobalParam": 5,
 	"updateGlobalParam2": 5, "setGasAddress": 3, "income": 10, "commitDpos": 20, "transferPenalty": 1}}
